@@ -46,7 +46,13 @@ type Obs struct {
 	Refused     bool   `json:"refused"`
 	ClientConfs int    `json:"clientConfs"`
 	DialOK      bool   `json:"dialOK"`
-	Msg         string `json:"msg"`
+	// second stage (op.rekey): the same identity fetches again with a replaced encryption key and a new nonce
+	ReIssued     bool `json:"reIssued"`
+	ReOpensRight bool `json:"reOpensRight"`
+	ReOpensOld   bool `json:"reOpensOld"`
+	ReEcho       bool `json:"reEcho"`
+	ReStoredEq   bool `json:"reStoredEq"`
+	Msg          string `json:"msg"`
 }
 
 type Line struct {
@@ -392,4 +398,51 @@ func one(op map[string]any, ln *Line, seed int64) {
 		ln.Obs.Msg = "dial: " + derr.Error()
 	}
 	ln.Res = "issued"
+	if !boolean(op, "rekey") || (flow != "wrapped" && flow != "rewrapped") {
+		return
+	}
+	// ---- the node replaced its encryption key: a second, validly signed fetch of the same identity ----
+	creds2 := proto.Clone(creds).(*types.NodeCredentials)
+	creds2.EncryptionPrivateKeyBytes = w.EncKeys["e2"].Priv
+	creds2.RegistrationNonce = make([]byte, nodeenrollment.NonceSize)
+	rand.Read(creds2.RegistrationNonce)
+	req2, err := creds2.CreateFetchNodeCredentialsRequest(ctx, reqOpts...)
+	if err != nil {
+		ln.Obs.Msg = "second request: " + err.Error()
+		return
+	}
+	var reqInfo2 types.FetchNodeCredentialsInfo
+	_ = proto.Unmarshal(req2.Bundle, &reqInfo2)
+	if flow == "rewrapped" {
+		regInfo, err := registration.DecryptWrappedRegistrationInfo(ctx, &reqInfo2, nodeenrollment.WithRegistrationWrapper(w.Wrappers["W2"]))
+		if err != nil {
+			ln.Obs.Msg = "second unwrap: " + err.Error()
+			return
+		}
+		ct, err := nodeenrollment.EncryptMessage(ctx, regInfo, srv.Nodes["kmid"].Creds)
+		if err != nil {
+			ln.Obs.Msg = "second rewrap: " + err.Error()
+			return
+		}
+		req2.RewrappedWrappingRegistrationFlowInfo = ct
+		req2.RewrappingKeyId = w.CertKeys["kmid"].KeyId
+	}
+	resp2, err := registration.FetchNodeCredentials(ctx, w.Store, req2, append(serverOpts, fopts...)...)
+	if err != nil || resp2 == nil || len(resp2.EncryptedNodeCredentials) == 0 {
+		return // refusing is allowed; answering with something bound to another key is not
+	}
+	ln.Obs.ReIssued = true
+	open2 := func(encPriv []byte) (*types.NodeCredentials, bool) {
+		nc := &types.NodeCredentials{CertificatePublicKeyPkix: creds.CertificatePublicKeyPkix, EncryptionPrivateKeyBytes: encPriv, EncryptionPrivateKeyType: types.KEYTYPE_X25519,
+			ServerEncryptionPublicKeyBytes: resp2.ServerEncryptionPublicKeyBytes, ServerEncryptionPublicKeyType: resp2.ServerEncryptionPublicKeyType}
+		out := new(types.NodeCredentials)
+		return out, nodeenrollment.DecryptMessage(ctx, resp2.EncryptedNodeCredentials, nc, out) == nil
+	}
+	inside2, ok2 := open2(creds2.EncryptionPrivateKeyBytes)
+	ln.Obs.ReOpensRight = ok2
+	_, ln.Obs.ReOpensOld = open2(creds.EncryptionPrivateKeyBytes)
+	ln.Obs.ReEcho = ok2 && bytes.Equal(inside2.RegistrationNonce, reqInfo2.Nonce)
+	if rec2, err := types.LoadNodeInformation(ctx, w.Inner, keyId, so()...); err == nil {
+		ln.Obs.ReStoredEq = bytes.Equal(rec2.EncryptionPublicKeyBytes, reqInfo2.EncryptionPublicKeyBytes) && bytes.Equal(rec2.RegistrationNonce, reqInfo2.Nonce)
+	}
 }
